@@ -137,6 +137,7 @@ class Program:
 
     def _index(self, mi: ModuleInfo):
         if self.inline:
+            inline_private_helpers(mi.tree)
             for n in ast.walk(mi.tree):
                 if isinstance(n, (ast.FunctionDef, ast.AsyncFunctionDef)):
                     inline_local_procedures(n)
@@ -543,6 +544,268 @@ def inline_local_procedures(fnode):
         if inlined[name] and inlined[name] == refs[name]:
             st._inlined = True
     return total
+
+
+def inline_private_helpers(tree):
+    """Module-private helpers that are used exactly once: a module-level
+    function `_h(...)` or a method `self._h(...)` whose name starts with an
+    underscore, is referenced once in the module (as the callee of a call in
+    a plain statement of another function of the same module / class), and
+    whose body is straight-line code that ends in a single `return <expr>`
+    (or returns nothing).  The call is replaced by the returned expression
+    and the helper's statements are inserted before the calling statement
+    (parameters bound to fresh names, locals renamed), so that rules see the
+    same code whether or not the author extracted the helper.  The helper's
+    def stays (marked `_inlined`).  Returns the number of calls inlined."""
+    import copy
+    cands = {}
+
+    def consider(fn, cls):
+        if not fn.name.startswith("_") or fn.name.startswith("__") or \
+                fn.decorator_list:
+            return
+        a = fn.args
+        if a.vararg or a.kwarg or a.kwonlyargs or a.posonlyargs:
+            return
+        body = list(fn.body)
+        if body and isinstance(body[0], ast.Expr) and \
+                isinstance(body[0].value, ast.Constant) and \
+                isinstance(body[0].value.value, str):
+            body = body[1:]
+        ret = None
+        if body and isinstance(body[-1], ast.Return):
+            ret = body[-1].value
+            body = body[:-1]
+        for x in body:
+            for y in ast.walk(x):
+                if isinstance(y, (ast.Return, ast.Yield, ast.YieldFrom,
+                                  ast.Nonlocal, ast.Global, ast.FunctionDef,
+                                  ast.AsyncFunctionDef, ast.ClassDef,
+                                  ast.Lambda, ast.Await)):
+                    return
+        if ret is not None and any(isinstance(y, (ast.Lambda, ast.Yield,
+                                                   ast.Await))
+                                   for y in ast.walk(ret)):
+            return
+        if sum(isinstance(y, ast.stmt) for x in body
+               for y in ast.walk(x)) > 25:
+            return
+        key = (cls, fn.name)
+        cands[key] = None if key in cands else (fn, body, ret)
+    for st in tree.body:
+        if isinstance(st, ast.FunctionDef):
+            consider(st, None)
+        elif isinstance(st, ast.ClassDef):
+            for m in st.body:
+                if isinstance(m, ast.FunctionDef):
+                    consider(m, st.name)
+    cands = {k: v for k, v in cands.items() if v}
+    if not cands:
+        return 0
+    # reference counts over the whole module
+    refs = {k: 0 for k in cands}
+    for x in ast.walk(tree):
+        if isinstance(x, ast.Name) and isinstance(x.ctx, ast.Load) and \
+                (None, x.id) in refs:
+            refs[(None, x.id)] += 1
+        if isinstance(x, ast.Attribute):
+            for (cls, nm) in refs:
+                if cls is not None and x.attr == nm:
+                    refs[(cls, nm)] += 1
+    # names exported / used dynamically keep their definition untouched
+    for x in ast.walk(tree):
+        if isinstance(x, ast.Constant) and isinstance(x.value, str):
+            for (cls, nm) in list(refs):
+                if x.value == nm:
+                    refs[(cls, nm)] += 100
+    # every reference must be the callee of a direct call
+    ncalls = {k: 0 for k in cands}
+    for x in ast.walk(tree):
+        if isinstance(x, ast.Call):
+            f = x.func
+            if isinstance(f, ast.Name) and (None, f.id) in ncalls:
+                ncalls[(None, f.id)] += 1
+            if isinstance(f, ast.Attribute) and \
+                    isinstance(f.value, ast.Name) and f.value.id == "self":
+                for (cls, nm) in ncalls:
+                    if cls is not None and f.attr == nm:
+                        ncalls[(cls, nm)] += 1
+    def _size(v):
+        return sum(isinstance(y, ast.stmt) for x in v[1] for y in ast.walk(x))
+    # used once: up to 25 statements; used a few times: tiny helpers only
+    cands = {k: v for k, v in cands.items()
+             if refs[k] == ncalls[k] and (
+                 refs[k] == 1 or (2 <= refs[k] <= 6 and _size(v) <= 6))}
+    if not cands:
+        return 0
+    done_calls = {k: 0 for k in cands}
+    counter = [0]
+    total = [0]
+
+    def callee_key(call, cls):
+        f = call.func
+        if isinstance(f, ast.Name) and (None, f.id) in cands:
+            return (None, f.id)
+        if isinstance(f, ast.Attribute) and isinstance(f.value, ast.Name) \
+                and f.value.id == "self" and (cls, f.attr) in cands:
+            return (cls, f.attr)
+        return None
+
+    def expand(call, key, at):
+        fn, body, ret = cands[key]
+        params = [p_.arg for p_ in fn.args.args]
+        args = list(call.args)
+        if key[0] is not None:
+            if not params or params[0] != "self":
+                return None
+            args = [ast.Name(id="self", ctx=ast.Load())] + args
+        if len(args) > len(params) or any(isinstance(z, ast.Starred)
+                                          for z in args):
+            return None
+        bind = dict(zip(params, args))
+        for kw in call.keywords:
+            if kw.arg is None or kw.arg not in params or kw.arg in bind:
+                return None
+            bind[kw.arg] = kw.value
+        defaults = fn.args.defaults
+        for p_, d in zip(params[len(params) - len(defaults):], defaults):
+            bind.setdefault(p_, d)
+        if set(bind) != set(params):
+            return None
+        counter[0] += 1
+        tag = "__%s%d" % (fn.name.lstrip("_"), counter[0])
+        new = [copy.deepcopy(b) for b in body]
+        newret = copy.deepcopy(ret) if ret is not None else \
+            ast.Constant(value=None)
+        stored = set()
+        for b in new:
+            for y in ast.walk(b):
+                if isinstance(y, ast.Name) and isinstance(
+                        y.ctx, (ast.Store, ast.Del)):
+                    stored.add(y.id)
+                if isinstance(y, ast.ExceptHandler) and y.name:
+                    stored.add(y.name)
+
+        def simple(e):
+            if isinstance(e, (ast.Constant, ast.Name)):
+                return True
+            if isinstance(e, ast.Attribute):
+                return simple(e.value)
+            return False
+        pre = []
+        subst = {}
+        for p_ in params:
+            if p_ in stored or not simple(bind[p_]):
+                pre.append(ast.Assign(
+                    targets=[ast.Name(id=p_ + tag, ctx=ast.Store())],
+                    value=copy.deepcopy(bind[p_])))
+                stored.add(p_)
+            else:
+                subst[p_] = bind[p_]
+
+        class Sub(ast.NodeTransformer):
+            def visit_Name(self, nd):
+                if nd.id in stored:
+                    return ast.copy_location(
+                        ast.Name(id=nd.id + tag, ctx=nd.ctx), nd)
+                if nd.id in subst and isinstance(nd.ctx, ast.Load):
+                    return copy.deepcopy(subst[nd.id])
+                return nd
+
+            def visit_ExceptHandler(self, nd):
+                self.generic_visit(nd)
+                if nd.name in stored:
+                    nd.name = nd.name + tag
+                return nd
+        out = pre + [Sub().visit(b) for b in new]
+        newret = Sub().visit(newret)
+        for b in out + [newret]:
+            for y in ast.walk(b):
+                if isinstance(y, (ast.expr, ast.stmt, ast.excepthandler)):
+                    y.lineno = at.lineno
+                    y.end_lineno = getattr(at, "end_lineno", at.lineno)
+                    y.col_offset = at.col_offset
+                    y.end_col_offset = getattr(at, "end_col_offset", 0)
+            ast.fix_missing_locations(b)
+        return out, newret
+
+    def header_exprs(s_):
+        """(owner, field) pairs of the expressions evaluated once when the
+        statement is reached"""
+        if isinstance(s_, (ast.Assign, ast.AugAssign, ast.Expr, ast.Return,
+                           ast.AnnAssign)):
+            return [(s_, "value")] if getattr(s_, "value", None) is not None \
+                else []
+        if isinstance(s_, ast.If):
+            return [(s_, "test")]
+        if isinstance(s_, ast.For):
+            return [(s_, "iter")]
+        return []
+
+    def rewrite(stmts, cls, owner_fn):
+        k = 0
+        while k < len(stmts):
+            s_ = stmts[k]
+            if isinstance(s_, (ast.FunctionDef, ast.AsyncFunctionDef,
+                               ast.ClassDef)):
+                k += 1
+                continue
+            done = False
+            for own, fld in header_exprs(s_):
+                root = getattr(own, fld)
+                calls = [c for c in ast.walk(root) if isinstance(c, ast.Call)
+                         and callee_key(c, cls)]
+                # not inside a comprehension / lambda / conditional part
+                lazy = [y for z in ast.walk(root) if isinstance(
+                    z, (ast.ListComp, ast.SetComp, ast.DictComp,
+                        ast.GeneratorExp, ast.Lambda, ast.IfExp, ast.BoolOp))
+                        for y in ast.walk(z)]
+                calls = [c for c in calls if not any(c is y for y in lazy)
+                         or isinstance(root, ast.UnaryOp)]
+                calls = [c for c in calls
+                         if not any(c is y for y in lazy)]
+                if len(calls) != 1:
+                    continue
+                c = calls[0]
+                key = callee_key(c, cls)
+                if cands[key][0] is owner_fn:
+                    continue
+                rep = expand(c, key, s_)
+                if rep is None:
+                    continue
+                pre, newret = rep
+
+                class Put(ast.NodeTransformer):
+                    def visit_Call(self, nd):
+                        if nd is c:
+                            return newret
+                        self.generic_visit(nd)
+                        return nd
+                setattr(own, fld, Put().visit(root))
+                stmts[k:k] = pre
+                k += len(pre)
+                done_calls[key] += 1
+                if done_calls[key] == ncalls[key]:
+                    cands[key][0]._inlined = True
+                total[0] += 1
+                done = True
+                break
+            for fld in ("body", "orelse", "finalbody"):
+                sub = getattr(s_, fld, None)
+                if isinstance(sub, list) and sub and \
+                        isinstance(sub[0], ast.stmt):
+                    rewrite(sub, cls, owner_fn)
+            for h in getattr(s_, "handlers", []) or []:
+                rewrite(h.body, cls, owner_fn)
+            k += 1
+    for st in tree.body:
+        if isinstance(st, ast.FunctionDef):
+            rewrite(st.body, None, st)
+        elif isinstance(st, ast.ClassDef):
+            for m in st.body:
+                if isinstance(m, ast.FunctionDef):
+                    rewrite(m.body, st.name, m)
+    return total[0]
 
 
 def param_deps(fnode, atom=None, control=True, envs=None):
